@@ -54,7 +54,13 @@ func (sc *SchemaCache) Schema(src protoreflect.MessageDescriptor) (RootSchema, e
 	}
 	schemaPackage.Schemas[nameInPackage] = placeholder
 	sc.created = append(sc.created[:0], placeholder)
+	built := false
 	defer func() {
+		if !built {
+			// Also when the build panicked: a caller which recovers must not
+			// leave the refs of the abandoned build in the cache.
+			sc.discardCreated()
+		}
 		sc.created = nil
 	}()
 
@@ -79,6 +85,7 @@ func (sc *SchemaCache) Schema(src protoreflect.MessageDescriptor) (RootSchema, e
 		sc.discardCreated()
 		return nil, err
 	}
+	built = true
 	return placeholder.To, nil
 }
 
